@@ -261,6 +261,16 @@ Reorder(p) ==
     /\ hist' = Append(hist, [op |-> "reorder", kind |-> "", p |-> p])
     /\ UNCHANGED <<built, nsteps, last, stage>>
 
+(* the system as it was constructed, i.e. before the reorderings of the history *)
+InvPerm(p) == [i \in 1..Len(p) |-> CHOOSE m \in 1..Len(p) : p[m] = i]
+RECURSIVE UndoFrom(_, _)
+UndoFrom(v, i) == IF i = 0 THEN v
+                  ELSE UndoFrom(IF hist[i].op = "reorder" THEN PermVec(v, InvPerm(hist[i].p)) ELSE v, i - 1)
+Undo(v) == UndoFrom(v, Len(hist))
+Subs0 == Undo(subs)
+Rxns0 == [j \in 1..Len(rxns) |-> [reac |-> Undo(rxns[j].reac), prod |-> Undo(rxns[j].prod),
+                                    ireac |-> Undo(rxns[j].ireac), iprod |-> Undo(rxns[j].iprod), k |-> rxns[j].k]]
+
 ------------------------------------------------------------------------------
 (* generators (model checking / case generation) *)
 NP == Len(SubPool)
@@ -351,6 +361,15 @@ ViolationIsBNt ==
 ReductionKeepsAcceptance ==
     built # "none" => LET us == UsedSeq(rxns, NS)
                       IN  Accepted <=> Accept(RedSubs(subs, us), RedRxns(rxns, us))
+(* a history of queries and reorderings leaves the system what it was: undoing the           *)
+(* reorderings gives back the constructed substances, and the composition matrix of the       *)
+(* current order is the matrix of the constructed order with its columns permuted alike       *)
+HistoryKeepsSystem ==
+    (built = "accepted" /\ hist # <<>>) =>
+        /\ { subs[i] : i \in 1..NS } = { Subs0[i] : i \in 1..NS }
+        /\ KeySeq(subs) = KeySeq(Subs0)
+        /\ \A i, j \in 1..NS : subs[i] = Subs0[j] =>
+               \A r \in 1..Len(KeySeq(subs)) : BMatrix(subs)[r][i] = BMatrix(Subs0)[r][j]
 RejectedNamesAKey == built = "rejected" => AllViolatedKeys(subs, rxns) # {}
 
 (* composition vectors are invariants of the kinetic right-hand side at every state visited *)
@@ -496,15 +515,6 @@ RedRec ==
           G |-> IF FirstOrder(rs) THEN GenMatrix(rs, Len(ss)) ELSE <<>>,
           dyn |-> DynRec(ss, rs, cc),
           units |-> IF cc = <<>> THEN <<>> ELSE [i \in 1..Len(UnitCfgs) |-> UnitRec(ss, rs, cc, UnitCfgs[i])] ]
-(* the system as it was constructed, i.e. before the reorderings of the history *)
-InvPerm(p) == [i \in 1..Len(p) |-> CHOOSE m \in 1..Len(p) : p[m] = i]
-RECURSIVE UndoFrom(_, _)
-UndoFrom(v, i) == IF i = 0 THEN v
-                  ELSE UndoFrom(IF hist[i].op = "reorder" THEN PermVec(v, InvPerm(hist[i].p)) ELSE v, i - 1)
-Undo(v) == UndoFrom(v, Len(hist))
-Subs0 == Undo(subs)
-Rxns0 == [j \in 1..Len(rxns) |-> [reac |-> Undo(rxns[j].reac), prod |-> Undo(rxns[j].prod),
-                                    ireac |-> Undo(rxns[j].ireac), iprod |-> Undo(rxns[j].iprod), k |-> rxns[j].k]]
 CaseRec ==
     [ in  |-> [ subs |-> Subs0, rxns |-> Rxns0, lines |-> SysLines(Subs0, Rxns0), hist |-> hist,
                 c0 |-> IF c0 = <<>> THEN <<>> ELSE [i \in 1..NS |-> c0[i][1]],
